@@ -4,6 +4,7 @@ import PyaModel.Core.Measure
 import PyaModel.Generated.TotalTables
 import PyaModel.Core.Tfr
 import PyaModel.Generated.TfrRoutes
+import PyaModel.Generated.FoldSites
 /-!
 # Spec/Total — what C12 demands, as executable predicates, and the exception classes
 
@@ -110,5 +111,88 @@ end
 
 /-- `D12_unsupportedAnnotNode`: the annotation contains a node kind `_Visitor` cannot visit. -/
 def D12_unsupportedAnnotNode (sup : String → Bool) (e : AExpr) : Bool := e.hasUnsupported sup
+
+/-! ### constant-folding sites (regenerated table `Gen.foldSites` / `Gen.unguardedFolds`)
+
+pyanalyze *executes* operators, `format`, `repr`, `len`, `hash`, … on statically known values in many
+places; each such site must catch whatever the operation can raise (a valid format spec on a huge
+int raises `OverflowError`, a user `__format__` raises anything). -/
+
+/-- the handler list catches every ordinary exception -/
+def catchesAll (caught : List String) : Bool := caught.contains "Exception" || caught.contains "BaseException"
+
+/-- Sites whose narrower clause is accepted, with the reason:
+* `_sequence_common_getitem_impl.inner` — `members[key.val]` on a *list of Values* with a slice of literals: CPython's list
+  slicing raises only `TypeError` / `ValueError` itself; a user `__index__` that raises is class `userCodeRaises`;
+* `KnownValue.__hash__`, `MultiValuedValue.can_assign` — `hash(...)` / set membership of a literal: builtin containers raise only
+  `TypeError` (unhashable); a user `__hash__` that raises is class `userCodeRaises`;
+* `_isinstance_impl` / `_issubclass_impl` — `_CannotResolve` is the module's own control-flow exception around a helper, not a fold. -/
+def foldWaivers : List (String × String × List String) :=
+  [("implementation.py", "_sequence_common_getitem_impl.inner", ["TypeError", "ValueError"]),
+   ("value.py", "KnownValue.__hash__", ["TypeError"]),
+   ("value.py", "MultiValuedValue.can_assign", ["TypeError"]),
+   ("implementation.py", "_isinstance_impl", ["_CannotResolve"]),
+   ("implementation.py", "_issubclass_impl", ["_CannotResolve"])]
+
+def foldSitesOk (sites : List (String × String × List String)) : Bool :=
+  sites.all fun s => catchesAll s.2.2 || foldWaivers.contains s
+
+/-- the guarded sites of the pinned tree: (file, function, number of fold `try:` blocks) — a `try:` that disappears is as bad
+as a clause that narrows -/
+def pinnedFoldSites : List (String × String × Nat) :=
+  [("name_check_visitor.py", "ClassAttributeChecker.serialize_type", 1),
+   ("name_check_visitor.py", "NameCheckVisitor._load_module", 1),
+   ("name_check_visitor.py", "NameCheckVisitor._visit_single_formatted_value", 2),
+   ("name_check_visitor.py", "NameCheckVisitor._visit_single_compare", 1),
+   ("name_check_visitor.py", "NameCheckVisitor._constraint_from_compare_op", 1),
+   ("name_check_visitor.py", "NameCheckVisitor._constraint_from_compare_op.predicate_func", 1),
+   ("name_check_visitor.py", "NameCheckVisitor._check_call_no_mvv", 1),
+   ("implementation.py", "_issubclass_impl", 1),
+   ("implementation.py", "_isinstance_impl", 1),
+   ("implementation.py", "_sequence_common_getitem_impl.inner", 1),
+   ("implementation.py", "_dict_getitem_impl.inner", 2),
+   ("implementation.py", "_dict_get_impl.inner", 2),
+   ("implementation.py", "_dict_delitem_impl", 1),
+   ("implementation.py", "_dict_pop_impl", 1),
+   ("implementation.py", "_dict_setdefault_impl", 1),
+   ("implementation.py", "len_of_value", 1),
+   ("boolability.py", "_get_boolability_no_mvv", 1),
+   ("predicates.py", "EqualsPredicate.__call__", 1),
+   ("predicates.py", "InPredicate.__call__", 1),
+   ("value.py", "KnownValue.__hash__", 1),
+   ("value.py", "MultiValuedValue.can_assign", 1),
+   ("value.py", "_HashableValue.can_assign", 1)]
+
+def foldSitesPresent (sites : List (String × String × List String)) : Bool :=
+  pinnedFoldSites.all fun p => decide (p.2.2 ≤ (sites.filter fun s => s.1 == p.1 && s.2.1 == p.2.1).length)
+
+/-- fold expressions outside every `try:` in the pinned tree. Each was probed (see harness corpus): most are protected by a type test
+just before them; `f'{….val!r}'` / `repr(val.val)` / `len(value.val)` are the finding classes `hugeIntRepr` / `hugeRangeLen`. A *new*
+unguarded fold is a new obligation failure. -/
+def pinnedUnguardedFolds : List (String × String × String) :=
+  [("name_check_visitor.py", "NameCheckVisitor._extract_exception_types", "f'{subval.val!r}'"),
+   ("name_check_visitor.py", "NameCheckVisitor.visit_Assign", "value.val in self.current_enum_members"),
+   ("implementation.py", "_sequence_common_getitem_impl.inner", "-len(members) <= key.val < len(members)"),
+   ("implementation.py", "_sequence_common_getitem_impl.inner", "key.val >= 0"),
+   ("implementation.py", "_sequence_common_getitem_impl.inner", "-key.val"),
+   ("implementation.py", "_typeddict_setitem", "key.val not in self_value.items"),
+   ("implementation.py", "_typeddict_setitem", "f'{key.val!r}'"),
+   ("implementation.py", "_dict_getitem_impl.inner", "f'{key.val!r}'"),
+   ("implementation.py", "_dict_get_impl.inner", "f'{key.val!r}'"),
+   ("format_strings.py", "ConversionSpecifier.accept_no_mvv", "arg.val not in range(256)"),
+   ("format_strings.py", "ConversionSpecifier.accept_no_mvv", "len(arg.val)"),
+   ("value.py", "KnownValue.__hash__", "hash((type(self.val), id(self.val)))"),
+   ("value.py", "KnownValue.__str__", "f'{self.val.__name__!r}'"),
+   ("value.py", "KnownValue.__str__", "f'{get_fully_qualified_name(self.val)!r}'"),
+   ("value.py", "KnownValue.__str__", "f'{self.val!r}'"),
+   ("value.py", "TypedValue.can_assign_thrift_enum", "other.val in self.typ._VALUES_TO_NAMES"),
+   ("value.py", "TypedDictValue.can_assign", "key_type.val not in self.items"),
+   ("value.py", "TypedDictValue.can_assign", "f'{key_type.val!r}'"),
+   ("value.py", "TypedDictValue.can_assign", "key not in other.val"),
+   ("value.py", "MultiValuedValue.__str__", "repr(val.val)"),
+   ("value.py", "concrete_values_from_iterable", "len(value.val)"),
+   ("value.py", "_HashableValue.can_assign", "f'{other.val!r}'")]
+
+def unguardedFoldsKnown (l : List (String × String × String)) : Bool := l.all pinnedUnguardedFolds.contains
 
 end Pya.C12
